@@ -231,3 +231,19 @@ def shared_value_scene(rng, dtype=np.uint16):
     if len({pA, pB, pC}) < 3:
         return None
     return pred, ref
+
+
+def missed_large_reference_scenes():
+    """unmatched instance maps in which every prediction is matched (so no fresh label is needed) and a *missed* reference carries the
+    largest label anywhere, at or beyond 2^8 / 2^16: whatever width the relabelled prediction gets, the reference must come out unchanged"""
+    out = []
+    for dt, big in ((np.uint16, 256), (np.uint16, 300), (np.uint32, 65536), (np.uint32, 70000), (np.uint64, 2 ** 24)):
+        ref = np.zeros((2, 14), dt)
+        pred = np.zeros((2, 14), dt)
+        ref[0, 0:4] = 2
+        pred[0, 0:4] = 7               # matched exactly
+        ref[1, 6:10] = 44
+        pred[1, 6:9] = 9               # matched (IoU 3/4)
+        ref[0, 10:13] = big            # missed, the largest label anywhere
+        out.append((pred, ref))
+    return out
